@@ -50,7 +50,7 @@ Sets == { [client |-> "cl1", height |-> 5, set |-> [a |-> 1, b |-> 1, c |-> 1]],
           [client |-> "other", height |-> 9, set |-> [z |-> 5]],
           [client |-> "", height |-> 9, set |-> [z |-> 5]] }
 
-ClientEvents == {[type |-> "SetClient", signer |-> a, client |-> c] : a \in {"e1", "x"}, c \in {"cl1", "", "other"}}
+ClientEvents == {[type |-> "SetClient", signer |-> a, client |-> c, oracle |-> o] : a \in {"e1", "x"}, c \in {"cl1", "", "other"}, o \in BOOLEAN}
 Events(s) ==
   { [type |-> "UpdateHostSet", client |-> x.client, height |-> x.height, set |-> x.set] : x \in Sets }
   \cup { [type |-> "UpdateOracle", signer |-> a, height |-> h, votes |-> vs] :
